@@ -105,3 +105,20 @@ def concretize(v, lo, hi):
         if v == c:
             return c
     return OUT
+
+
+def limited(thunk, extra=400):
+    """run thunk with the recursion limit lowered to (current depth + extra): a runaway recursion ends quickly as a
+    RecursionError instead of crawling through a thousand traced frames"""
+    import sys
+    depth = 0
+    f = sys._getframe()
+    while f is not None:
+        depth += 1
+        f = f.f_back
+    old = sys.getrecursionlimit()
+    sys.setrecursionlimit(min(old, depth + extra))
+    try:
+        return thunk()
+    finally:
+        sys.setrecursionlimit(old)
